@@ -358,7 +358,8 @@ def check_pair(rec, su: Setup, sh: Shape, r: int, t: int, cell: Lin):
     bad2 = [x for x in p2 if x not in falls2]
     for x in bad2:
         kind = x[0][0]
-        rec.ob("C10.4", f"{tag}: filling pass leaves the loop by {kind}", core.VIOLATED if kind == "raise" else core.UNDECIDED, w2,
+        lost = any((c.left.has_opaque() or c.right.has_opaque()) for c, tt, _ in x[4].path)
+        rec.ob("C10.4", f"{tag}: filling pass leaves the loop by {kind}", core.VIOLATED if kind == "raise" and not lost else core.UNDECIDED, w2,
                f"path [{describe_path(x[4])}] {x[0][1] if kind == 'raise' else ''}")
     if len(falls2) != 1:
         if falls2:
